@@ -195,7 +195,7 @@ class Vocab:
 
     def usable(self, case):
         kinds = set(case["kind"])
-        if ("dur" in kinds or "del" in kinds) and not self.dur_ok:
+        if kinds & {"dur", "del", "dur2", "del2"} and not self.dur_ok:
             return False
         if ("on" in kinds or "off" in kinds or "def" in kinds) and not (self.has["Onset"] and self.has["Def"]):
             return False
@@ -282,6 +282,10 @@ def render(case, vocab, rot, allow_ph=False, style=0, perm=None, ns="", forms=No
             return ns + cs("Duration") + "/" + ["3 s", "3000 ms", "2.5 s"][rot % 3]
         if kd == "del":
             return ns + cs("Delay") + "/" + ["2 s", "1 s", "500 ms"][rot % 3]
+        if kd == "dur2":     # the same tag as "dur" with another value
+            return ns + cs("Duration") + "/" + ["4 s", "4000 ms", "1.5 s"][rot % 3]
+        if kd == "del2":
+            return ns + cs("Delay") + "/" + ["3 s", "4 s", "750 ms"][rot % 3]
         if kd == "uq":
             return ns + cs("Event-context")
         raise ValueError(kd)
